@@ -8,7 +8,7 @@
 EXTENDS PathPattern, Json, IOUtils
 Log == ndJsonDeserialize(IOEnv.TRACE)
 MaxLen == atoi(IOEnv.MAXLEN)
-Alphabet == {97, 98, 99, 48, 49, 50, 57, 47, 35, 123, 125}
+Alphabet == {97, 98, 58, 48, 49, 50, 57, 47, 35, 123, 125}      \* a b : 0 1 2 9 / # { }  (the ':' that separates a pattern's path from its types is a legal address character)
 RECURSIVE Strings(_)
 Strings(n) == IF n = 0 THEN { <<>> } ELSE LET S == Strings(n - 1) IN S \cup { Append(s, c) : s \in { y \in S : Len(y) = n - 1 }, c \in Alphabet }
 Universe == Strings(MaxLen)
